@@ -83,8 +83,8 @@ pub fn diff(o: &Obs, m: &Model) -> Option<String> {
     if o.writeable != m.writable {
         return Some(format!("writeable {} vs {}", o.writeable, m.writable));
     }
-    if o.fork != 0 {
-        return Some(format!("fork {}", o.fork));
+    if o.fork != m.fork {
+        return Some(format!("fork {} vs {}", o.fork, m.fork));
     }
     for i in 0..o.has.len() as u64 {
         if o.has[i as usize] != m.has(i) {
